@@ -81,6 +81,7 @@ type Lemma struct {
 	Axiom   bool
 	Uses    []Expr
 	Unfold  []Expr
+	Decr    Expr
 	Text    string
 	File    string
 	Line    int
@@ -485,6 +486,12 @@ func (cs *ContractSet) parseItem(file, pkgPath, header string, line int, clauses
 				if body == "bv" {
 					lm.Mode = ModeBV
 				}
+			case "decreases":
+				e, err := parseExpr(body)
+				if err != nil {
+					return fmt.Errorf("%s:%d: %v", file, rc.line, err)
+				}
+				lm.Decr = e
 			default:
 				full += " " + rc.text
 			}
